@@ -101,6 +101,15 @@ Theorem C37_fixed64_roundtrip_refuted_before_fix :
 Proof. exact fixed64_roundtrip_refuted_before_fix. Qed.
 Print Assumptions C37_fixed64_roundtrip_refuted_before_fix.
 
+(* Keystore: SaveAccount's 96-byte blob followed by LoadAccounts' keyPair[64:96]
+   gives back the same private scalar for every private key of at most 32
+   bytes (D.Bytes() is shorter than 32 bytes for one generated key in 256). *)
+Theorem C37_keystore_blob_roundtrip :
+  forall xy d, length xy = 64%nat -> (length d <= 32)%nat ->
+  length (blob_priv (key_blob xy d)) = 32%nat /\ be_value (blob_priv (key_blob xy d)) = be_value d.
+Proof. exact keystore_blob_roundtrip. Qed.
+Print Assumptions C37_keystore_blob_roundtrip.
+
 (* Non-vacuity: concrete oracles satisfying every hypothesis of the multisig
    theorem (three keys, "signature of k" = 64 copies of k's second byte,
    verification = equality), and concrete codec instances. *)
